@@ -159,18 +159,18 @@ func curGID() string {
 }
 
 type c10Query struct {
-	id      int
-	in      c10Input
-	out     c10Output
-	done    chan struct{}
-	started chan struct{}
-	gid     string
-	panicv  *CapturedPanic
-	err     error
-	mp      *balloon.MembershipProof
-	ip      *balloon.IncrementalProof
-	call    int64
-	ret     int64
+	id       int
+	in       c10Input
+	out      c10Output
+	done     chan struct{}
+	started  chan struct{}
+	gid      string
+	panicv   *CapturedPanic
+	err      error
+	mp       *balloon.MembershipProof
+	ip       *balloon.IncrementalProof
+	call     int64
+	ret      int64
 	finished bool
 }
 
